@@ -211,8 +211,12 @@ func CreateAuthenticators(cfg AuthConfig) []Authenticator {
 		if len(cfg.HashedUsers) > 0 {
 			creds := HashedCredentials(cfg.HashedUsers)
 			auths = append(auths, NewUserPassAuthenticator(creds))
-		} else if len(cfg.Users) > 0 {
-			// Fall back to plaintext credentials (deprecated)
+		} else {
+			// Fall back to plaintext credentials (deprecated).
+			// With authentication enabled but no usable user this still installs
+			// username/password authentication (with a store nobody can match):
+			// an empty authenticator list would make the handler fall back to
+			// "no authentication required" and serve every client.
 			creds := StaticCredentials(cfg.Users)
 			auths = append(auths, NewUserPassAuthenticator(creds))
 		}
